@@ -11,6 +11,7 @@ from vf.shrink import shrink_tokens
 from vf.gen.tokens import TOKENS, CORE, CLASS_OF, classes_of
 from vf import contracts_quote as cq
 
+MIN_RANDOM = 150  # random iterations run per shard whatever the wall-clock budget (floors must not depend on machine load)
 SHARDS = {"quick": 4, "thorough": 16}
 BUDGET = {"quick": 20, "thorough": 240}
 MIN_CASES = {"quick": 20000, "thorough": 300000}
@@ -149,7 +150,7 @@ def run(ctx):
         alltok = [t for t, _ in TOKENS] + ["\n", "\t", "\x00", "\x7f", "\x85", "\r", "\x1f"]
         n = 0
         lim = 4000 if ctx.tier == "quick" else 10 ** 7
-        while ctx.time_left() and n < lim:
+        while (ctx.time_left() or n < MIN_RANDOM) and n < lim:
             n += 1
             k = rng.randint(5, 40) if rng.random() < 0.5 else rng.randint(4, 8)
             toks = [rng.choice(alltok) for _ in range(k)]
